@@ -227,6 +227,10 @@ def run(rep, facts, tier):
                 if "affinepoint" in sorts or G.sort_of(b.get("impl_self", ""))[0] == "affinepoint":
                     G.check_fwd(rep, cfg, path, b, tr, sorts, loc, "C05")
         named(rep, cfg, loc)
+        if name == "A":
+            # Group::double / double_in_place is what arkworks' window methods (MSM, mul_bigint on the trait level) call
+            from . import c04
+            c04.named_methods(rep, cfg, loc)
         if name == "M":
             ladder(rep, cfg)
         c17.curve_constants(rep, facts[name], name)
